@@ -150,4 +150,5 @@ def main():
     sys.stdout.write(json.dumps(out))
 
 
-main()
+if __name__ == "__main__":
+    main()
